@@ -9,22 +9,22 @@ def prof(name, quick=400, thorough=6000, **kw):
     return d
 
 PROPS = {
-    "C01": dict(module="MRB.Props.C01", level="proof", profiles=[prof("fifo", 500, exhaustive=5)], also_tags=[],
+    "C01": dict(module="MRB.Props.C01", level="proof", profiles=[prof("fifo", 500, exhaustive=5), prof("reset", 150, 1500), prof("detached", 150, 1500)], also_tags=[],
                 search=[("conc", ["C02", "C03"])],
                 gen_items=["advanceLocal", "advance", "check", "prodAvail", "workAvail", "consAvail", "nextChunk", "nextChunkMut", "wiring", "skeletons"],
                 trusted=SEQ_TRUST,
                 explanation="FIFO refinement theorem over the generated kernel + differential correspondence (profile fifo)."),
-    "C02": dict(module="MRB.Props.C02", level="proof", profiles=[], engines=["conc"], gen_items=["concAcc", "wiring", "skeletons"],
+    "C02": dict(module="MRB.Props.C02", level="proof", profiles=[], engines=["conc"], search=[("conc", ["C03"])], gen_items=["concAcc", "wiring", "skeletons"],
                 trusted=["release/acquire fragment of C11 in view-based operational form (exact for single-writer locations)", "slot contents as one global memory, justified by the race-freedom theorem",
                          "disciplined clients: producer writes before moving on, worker applies f once per item, consumer reads before moving on"]),
-    "C03": dict(module="MRB.Props.C03", level="proof", profiles=[], engines=["conc"], gen_items=["concAcc", "wiring", "skeletons"],
+    "C03": dict(module="MRB.Props.C03", level="proof", profiles=[prof("detached", 200, 2000), prof("reset", 150, 1500)], engines=["conc"], gen_items=["concAcc", "wiring", "skeletons"],
                 trusted=["release/acquire fragment of C11 in view-based operational form (exact for single-writer locations)", "compiler and hardware respect it",
                          "user code accesses only the granted window"]),
     "C10": dict(module="MRB.Props.C10", level="proof", profiles=[], engines=["conc"], gen_items=["concAcc", "skeletons", "loops", "check"],
                 trusted=["OS scheduling and real time are not modelled"]),
     "C04": dict(module="MRB.Props.C04", level="proof", profiles=[prof("order", 500, exhaustive=5)], engines=["conc"],
                 gen_items=["advanceLocal", "advance", "check", "prodAvail", "workAvail", "consAvail", "wiring", "skeletons"], trusted=SEQ_TRUST),
-    "C05": dict(module="MRB.Props.C05", level="proof", search=[("conc", ["C05"])], profiles=[prof("avail", 500, exhaustive=5), prof("reset", 150, 1500), prof("construct", 150, 1500)],
+    "C05": dict(module="MRB.Props.C05", level="proof", search=[("conc", ["C05"])], profiles=[prof("avail", 500, exhaustive=5), prof("reset", 150, 1500), prof("construct", 150, 1500), prof("detached", 150, 1500)],
                 gen_items=["check", "prodAvail", "workAvail", "consAvail", "sliceAvail", "sliceMultipleOf", "skeletons"], trusted=SEQ_TRUST),
     "C06": dict(module="MRB.Props.C06", level="proof", profiles=[prof("fifo", 500, exhaustive=5)],
                 gen_items=["nextChunk", "nextChunkMut", "advanceLocal"], trusted=SEQ_TRUST),
@@ -43,9 +43,9 @@ PROPS = {
                 gen_items=["concAcc", "localAcc", "adetGoBack", "adetAdvance", "adetSync"], trusted=SEQ_TRUST),
     "C14": dict(module="MRB.Props.C14", level="proof",
                 profiles=[prof("async", 400, features=["async"], binary="asyncdiff"), prof("asyncown", 300, features=["async"], binary="asyncdiff")],
-                gen_items=["asyncDelegation"], trusted=SEQ_TRUST + ["Rust's Future/Waker machinery; futures are polled by hand with a counting waker"]),
+                engines=["wakeprobe"], gen_items=["asyncDelegation"], trusted=SEQ_TRUST + ["Rust's Future/Waker machinery; futures are polled by hand with a counting waker"]),
     "C15": dict(module="MRB.Props.C15", level="proof",
-                profiles=[prof("async", 400, features=["async"], binary="asyncdiff")],
+                profiles=[prof("async", 400, features=["async"], binary="asyncdiff")], engines=["wakeprobe"],
                 gen_items=["sendSync"], trusted=SEQ_TRUST + ["wake-ups are observed through the waker passed to poll"]),
     "C16": dict(module="MRB.Props.C16", level="proof", profiles=[], engines=["c16"], gen_items=["sendSync"],
                 trusted=["rustc's trait solver is the ground truth for Send/Sync; the auto-trait rule is modelled over the finite universe wrapper x role x buffer kind x (item Send?, item Sync?)"],
